@@ -25,6 +25,8 @@ def clean(exe, cases):
         toks, _ = run_model(exe, cases)
         dirty = False
         for (n, c, ev), t in zip(cases, toks):
+            if "!!" in t:
+                raise RuntimeError("model set its fault flag on a well-formed event: %s %s -> %s" % (c, " ".join(ev), " ".join(t)))
             if "!" in t:
                 del ev[t.index("!")]
                 removed += 1
@@ -105,6 +107,7 @@ def oracle(cfg, events, toks, notes):
     nconn = 0
     delivered = {}       # sender -> list of (token, fds) in order of first delivery
     seen_tok = {}
+    waited = None        # ms of ticks since descriptors have been pending continuously on the only negotiated connection
     for k, (e, t) in enumerate(zip(events, toks)):
         if e[0] == "C":
             live.add(nconn)
@@ -136,9 +139,29 @@ def oracle(cfg, events, toks, notes):
                 seen_tok[tok] = fl
                 if snd != "?":
                     delivered.setdefault(int(snd), []).append((tok, fl))
+        # an fd-carrying message that cannot be delivered is answered with an error, not dropped: a write that is one whole,
+        # valid message to a live connection without descriptor passing, from a sender that stays connected
+        if e[0] == "W":
+            _, c, ps, fl = e.split(".")
+            if ps.startswith("H:") and "," not in ps and int(c) in live:
+                d = fds_msg.parse_desc(ps)
+                if (int(ps.split(":")[8]) == d["len"] and d["fixed_ok"] and d["valid"] and d["nfds"] > 0 and d["dest"][0] == "u"
+                        and d["dest"] != "u" + c and int(d["dest"][1:]) in live and not neg.get(int(d["dest"][1:]), True)):
+                    want = ["%s:E.NotSupported.%d" % (c, d["token"]), "%s:E.AccessDenied.%d" % (c, d["token"])]
+                    if not any(w in outs.split("+") for w in want):
+                        bad.append((k, "message %d with descriptors for connection %s, which cannot receive them, was neither refused "
+                                       "with an error nor was its sender disconnected" % (d["token"], d["dest"][1:])))
         nneg = len([c for c in live if neg.get(c)])
         if held < 0 or held > maxfds * nneg:
             bad.append((k, "daemon holds %d descriptors with %d live negotiated connections (limit %d each)" % (held, nneg, maxfds)))
+        # surplus descriptors are held "within the pending-descriptor timeout": with a single negotiated connection alive,
+        # a non-zero count at every step means the same connection has had descriptors pending all along
+        if nneg == 1 and held > 0:
+            waited = (waited if waited is not None else 0) + (int(e[2:]) if e[0] == "T" and waited is not None else 0)
+            if waited >= tmo:
+                bad.append((k, "descriptors have been pending on one connection for %d ms of idle time, pending_fd_timeout is %d" % (waited, tmo)))
+        else:
+            waited = None
         if e[0] == "T" and int(e[2:]) >= tmo and held != 0:
             bad.append((k, "%d descriptors still pending after %s ms (pending_fd_timeout %d)" % (held, e[2:], tmo)))
     for s, tl in delivered.items():
@@ -194,3 +217,84 @@ def load_corpus(prop_id="C15"):
         for c in json.load(open(p)):
             out.append((c["name"], tuple(c["cfg"]), list(c["events"])))
     return out
+
+
+# ------------------------------------------------------------------ library side (harness/c/fds_h.c)
+def lib_line(cfg, events):
+    """the `run` line for fds_h: bytes of every write of connection 0, D when the peer closes"""
+    toks = []
+    cur = None
+    neg = events[0][1]
+    for e in events[2:]:
+        if e[0] == "W":
+            _, c, ps, fl = e.split(".")
+            data = b""
+            for p in ([] if ps == "-" else ps.split(",")):
+                if p[0] == "H":
+                    d = fds_msg.parse_desc(p)
+                    n = int(p.split(":")[8])
+                    raw = fds_msg.build(d)
+                    data += raw[:n]
+                    cur = [raw, n]
+                else:
+                    n = int(p.split(":")[1])
+                    data += cur[0][cur[1]:cur[1] + n]
+                    cur[1] += n
+            toks.append("W:%s:%s" % (data.hex() or "-", fl))
+        elif e == "D.0":
+            toks.append("D")
+    return "run %d %d %s %s" % (cfg[0], fds_msg.MAX_MESSAGE_SIZE, neg, " ".join(toks))
+
+
+def lib_canon_model(events, mtoks):
+    """model tokens of the steps the library harness sees, in its vocabulary"""
+    out = []
+    for e, t in zip(events[2:], mtoks[2:]):
+        if e == "D.1":
+            continue
+        if t == "!" or t.count("/") != 2:
+            out.append(t)
+            continue
+        outs, gone, held = t.split("/")
+        items = []
+        for o in ([] if outs == "-" else outs.split("+")):
+            r, body = o.split(":", 1)
+            f = body.split(".")
+            items.append("M.%s.%s" % (f[2], f[3]) if f[0] == "M" else "?" + o)
+        out.append("%s/%s/%s" % ("+".join(items) if items else "-", "x" if gone == "0" else "-", held))
+    return out + ["end/0"]
+
+
+def lib_oracle(cfg, events, toks):
+    """C15 on what the library was observed to do"""
+    bad = []
+    neg, sent, announced = parse_events(events)
+    got = []
+    for k, t in enumerate(toks):
+        if "!fdcount" in t:
+            bad.append((k, "the process holds a different number of open descriptors than the connection reports as pending (%s)" % t))
+        if t.startswith("end/"):
+            if t != "end/0":
+                bad.append((k, "after the connection was closed and released the process has %s descriptors more than before" % t[4:]))
+            continue
+        if t.count("/") != 2:
+            continue
+        outs, gone, held = t.split("/")
+        held = int(held.replace("!fdcount", ""))
+        if held > cfg[0] or (held and not neg.get(0)):
+            bad.append((k, "%d descriptors pending (limit %d, negotiated: %s)" % (held, cfg[0], neg.get(0))))
+        for o in ([] if outs == "-" else outs.split("+")):
+            f = o.split(".")
+            if f[0] != "M" or len(f) != 3:
+                continue
+            fl = [] if f[2] == "-" else f[2].split(",")
+            if "?" in fl:
+                bad.append((k, "message %s carries a descriptor that is not one of the open files the peer attached" % f[1]))
+            if len(fl) != announced.get(int(f[1]), -1):
+                bad.append((k, "message %s announced %s descriptors and arrived with %d" % (f[1], announced.get(int(f[1])), len(fl))))
+            if fl and not neg.get(0):
+                bad.append((k, "descriptors accepted on a connection that did not negotiate descriptor passing"))
+            got.extend(fl)
+    if len(set(got)) != len(got) or not is_subseq(got, sent.get(0, [])):
+        bad.append((len(toks) - 1, "descriptors handed to the application out of order, twice, or not sent by the peer: %s vs sent %s" % (got, sent.get(0))))
+    return bad
